@@ -37,8 +37,11 @@ def record_harness(ctx, cases, path, tag):
         os.remove(path)
     cp = ctx.write_cases("ixtrace-%s.ndjson" % tag, cases)
     out = cp + ".result.json"
+    if os.path.exists(out):
+        os.remove(out)
     p = ctx.run_harness(["replay", "--in", cp, "--out", out], timeout=1500, env_extra={"VERIF_INDEX_TRACE": path})
-    if p.returncode != 0 or not os.path.exists(path):
+    # (a replay that reported hangs stops itself after writing its results: rc -9 with a result file)
+    if not os.path.exists(path) or (p.returncode != 0 and not os.path.exists(out)):
         raise vlib.Infra("harness replay with index tracing failed rc=%s: %s" % (p.returncode, (p.stderr or "")[-1500:]))
 
 
